@@ -451,4 +451,10 @@ def obligations(tier):
 
 
 def conformance(tier):
-    return {'scenarios': 0, 'mismatches': []}
+    from ..conformance import scenarios
+    r = scenarios.run(['interleave'])
+    nval, bad = _validate_translator()       # E2 translator vs the real fit_frames on the repository's test triples + a grid
+    r['scenarios'] += nval
+    r['mismatches'] += bad
+    r['names'] = r.get('names', []) + [f'{nval} inputs through real fit_frames and its SMT encoding']
+    return r
